@@ -2,6 +2,7 @@ package main
 
 import (
 	"fmt"
+	"go/constant"
 	"go/token"
 	"go/types"
 	"sort"
@@ -74,7 +75,19 @@ type point struct {
 	idx int // facts established strictly before instruction idx of b
 }
 
+type phiFactKey struct {
+	phi *ssa.Phi
+	tv  bool
+}
+
+type phiFactVal struct {
+	facts []dfact
+	dq    []diseq
+}
+
 type bpFn struct {
+	phiDepth     int
+	phiFacts     map[phiFactKey]phiFactVal
 	bp           *bp
 	fn           *ssa.Function
 	global       []dfact // definitional facts (valid wherever the values are defined)
@@ -455,6 +468,7 @@ func (f *bpFn) callFacts(c *ssa.Call) {
 			if rt.k != tInt {
 				return
 			}
+			nonneg := true
 			for _, a := range c.Call.Args {
 				at, ao := f.intTerm(a)
 				if b.Name() == "min" {
@@ -462,6 +476,19 @@ func (f *bpFn) callFacts(c *ssa.Call) {
 				} else {
 					f.add(at, ao, rt, ro, 0, "max >= arg")
 				}
+				isLen := false
+				if lc, ok := a.(*ssa.Call); ok {
+					if lb, ok := lc.Call.Value.(*ssa.Builtin); ok && (lb.Name() == "len" || lb.Name() == "cap") {
+						isLen = true
+					}
+				}
+				if cv, ok := constInt(a); ok && cv >= 0 {
+					isLen = true
+				}
+				nonneg = nonneg && isLen
+			}
+			if nonneg {
+				f.add(zeroT, 0, rt, ro, 0, "min/max of lengths is non-negative")
 			}
 		case "append":
 			rt, ro := f.lenTerm(c)
@@ -568,6 +595,55 @@ func (f *bpFn) condFacts(cond ssa.Value, tv bool, out *[]dfact, dq *[]diseq) {
 		if c.Op == token.NOT {
 			f.condFacts(c.X, !tv, out, dq)
 		}
+	case *ssa.Phi:
+		// a boolean built by && / || (ok := i < n && s[i] == c): when it has the value that only one
+		// incoming edge can supply, that edge was taken, so the conditions on the way to it held
+		// (facts are about immutable SSA values) and its own operand has that value
+		if !isBoolType(c.Type()) || f.phiDepth > 1 {
+			return
+		}
+		nconst := 0
+		for _, e := range c.Edges {
+			if _, ok := e.(*ssa.Const); ok {
+				nconst++
+			}
+		}
+		if nconst == 0 {
+			return // not the short-circuit shape
+		}
+		var cand []int
+		for i, e := range c.Edges {
+			if k, ok := e.(*ssa.Const); ok && k.Value != nil && k.Value.Kind() == constant.Bool {
+				if constant.BoolVal(k.Value) != tv {
+					continue // this edge supplies the other value
+				}
+			}
+			cand = append(cand, i)
+		}
+		if len(cand) != 1 {
+			return
+		}
+		i := cand[0]
+		ck := phiFactKey{c, tv}
+		if f.phiFacts == nil {
+			f.phiFacts = map[phiFactKey]phiFactVal{}
+		}
+		if pv, ok := f.phiFacts[ck]; ok {
+			*out = append(*out, pv.facts...)
+			*dq = append(*dq, pv.dq...)
+			return
+		}
+		var pf []dfact
+		var pq []diseq
+		f.phiDepth++
+		f.edgeFacts(c.Block().Preds[i], c.Block(), &pf, &pq)
+		if _, isConst := c.Edges[i].(*ssa.Const); !isConst {
+			f.condFacts(c.Edges[i], tv, &pf, &pq)
+		}
+		f.phiDepth--
+		f.phiFacts[ck] = phiFactVal{pf, pq}
+		*out = append(*out, pf...)
+		*dq = append(*dq, pq...)
 	case *ssa.BinOp:
 		op := c.Op
 		if !tv {
